@@ -13,3 +13,4 @@ open Bec2Verif.Props.C13
 #print axioms emit_empty_rejected
 #print axioms ignored_section_swallows_nothing
 #print axioms orphan_continuation_rejected
+#print axioms filter_text_is_notation_of_filter_bytes
